@@ -516,7 +516,19 @@ func (e *SpecEnv) derefPtr(p Term, elem types.Type) SVal {
 		return SVal{sel(vc.get(e.st, h), p), e.goST(elem)}
 	}
 	h := vc.heapVar(vc.sorts.objHeap(elem))
-	return SVal{sel(vc.get(e.st, h), p), e.goST(elem)}
+	val := sel(vc.get(e.st, h), p)
+	if e.frame != nil && !mentionsAny(p, e.bound) && !mentionsAny(val, e.bound) {
+		// representation invariant of the memory model: references stored in an object are
+		// allocated - bounded by the entry allocation counter when the heap is still the entry heap
+		bs := e.st
+		if root := e.frame.rootFrame(); root.entry != nil && vc.get(e.st, h) == vc.get(root.entry, h) {
+			bs = root.entry
+		}
+		named := vc.define("sload", vc.sorts.sortOf(elem), val)
+		e.frame.assumeTyped(elem, named, bs)
+		return SVal{named, e.goST(elem)}
+	}
+	return SVal{val, e.goST(elem)}
 }
 
 func (e *SpecEnv) evalField(n *SField) SVal {
@@ -663,6 +675,20 @@ func (e *SpecEnv) evalBinary(n *SBinary) SVal {
 		}
 		return SVal{t, stBool}
 	case "<", "<=", ">", ">=":
+		if xv := e.eval(n.X); xv.Ty.Sort == "Str" {
+			// lexicographic order on strings (the same uninterpreted total order the code uses)
+			yv := e.eval(n.Y)
+			switch n.Op {
+			case "<":
+				return SVal{fmt.Sprintf("(str_lt %s %s)", xv.T, yv.T), stBool}
+			case ">":
+				return SVal{fmt.Sprintf("(str_lt %s %s)", yv.T, xv.T), stBool}
+			case "<=":
+				return SVal{fmt.Sprintf("(not (str_lt %s %s))", yv.T, xv.T), stBool}
+			default:
+				return SVal{fmt.Sprintf("(not (str_lt %s %s))", xv.T, yv.T), stBool}
+			}
+		}
 		a, b := e.evalInt(n.X), e.evalInt(n.Y)
 		return SVal{fmt.Sprintf("(%s %s %s)", n.Op, a, b), stBool}
 	case "+", "-", "*":
@@ -871,6 +897,9 @@ func (e *SpecEnv) evalCall(n *SCall) SVal {
 		} else if d, ok := n.Args[1].(*SDeref); ok {
 			tyText = "*" + d.X.String()
 		}
+		if tyText == "" {
+			tyText = typeText(n.Args[1].String())
+		}
 		t := vc.resolveGoType(tyText, e.pkg)
 		if t == nil {
 			specFail("dyn: unknown type %s", tyText)
@@ -885,6 +914,24 @@ func (e *SpecEnv) evalCall(n *SCall) SVal {
 		}
 		vc.sorts.boxFn(t)
 		return SVal{fmt.Sprintf("(= (Iface_tag %s) %d)", arg(0).T, vc.sorts.tagOf(t)), stBool}
+	case "ispow2":
+		// power-of-two predicate: defined (one bit set) in bit-vector mode, uninterpreted here;
+		// integer-mode facts about it come from axioms
+		if len(n.Args) != 1 {
+			specFail("ispow2(x)")
+		}
+		fn := smtSym("bitop:ispow2")
+		vc.sorts.declFun(fn, []string{"Int"}, "Bool")
+		return SVal{fmt.Sprintf("(%s %s)", fn, e.evalInt(n.Args[0])), stBool}
+	case "bvand", "bvor", "bvxor", "shl", "shr":
+		// bit operations in integer mode: uninterpreted (their meaning is only available in
+		// bit-vector mode; here they let callers repeat what a bit-vector contract established)
+		if len(n.Args) != 2 {
+			specFail("%s(a, b)", n.Fn)
+		}
+		fn := smtSym("bitop:" + n.Fn)
+		vc.sorts.declFun(fn, []string{"Int", "Int"}, "Int")
+		return SVal{fmt.Sprintf("(%s %s %s)", fn, e.evalInt(n.Args[0]), e.evalInt(n.Args[1])), stInt}
 	case "implements":
 		// implements(i, I): the dynamic type of interface value i implements interface type I
 		// (the predicate a comma-ok type assertion to I tests)
@@ -982,4 +1029,13 @@ func resultNames(sig *types.Signature) []string {
 // divisions: "((x / pocketcore) / types.RelayProof)" -> "x/pocketcore/types.RelayProof"
 func typeText(s string) string {
 	return strings.NewReplacer("(", "", ")", "", " ", "").Replace(s)
+}
+
+func mentionsAny(t Term, names []string) bool {
+	for _, n := range names {
+		if strings.Contains(t, n) {
+			return true
+		}
+	}
+	return false
 }
